@@ -108,7 +108,7 @@ impl Prop for Local {
         "one OrSWotSet<2>, 2-23 inserts/deletes over 1-4 keys from 1-3 origins with stamps advancing in steps of \
          0 s .. 2 h (so cut-offs move past tombstones), both sources, arrival timely / locally swapped / shuffled, \
          purge_old_deletes at generated points; oracle at each purge: live ids+stamps unchanged, returned list is a \
-         subset of the previous tombstones (same stamps) and exactly those vanished; for every tombstone purged so \
+         subset of the previous tombstones (same stamps), none of them a live id, and exactly those vanished; for every tombstone purged so \
          far and probe stamps <= it from the deleting node (same key and a fresh key): will_apply false, \
          insert/delete on a clone return false and change nothing -- re-checked after every later step; non-trivial = >=1 tombstone purged"
     }
@@ -196,6 +196,12 @@ fn run(case: &Case) -> Outcome {
                         before.dead
                     );
                     ensure!(expect_dead.remove(k).is_some(), "purge-returned-duplicate", "step {i}: purge returned key {k} twice");
+                    ensure!(
+                        !before.live.contains_key(k),
+                        "purge-returned-live-key",
+                        "step {i}: purge returned key {k}, which is live at {:?} (the caller removes the returned ids from storage)",
+                        before.live.get(k)
+                    );
                     purged.push((*k, t));
                 }
                 ensure!(
